@@ -65,14 +65,14 @@ def library_programs(work, stats, rng, tier):
     from . import c16
     from . import methodpaths as MP
     out = []
-    graphs = rng.sample(K.emit(work, stats), 40 if tier == "quick" else 600)
+    graphs = rng.sample(K.emit(work, stats), 40 if tier == "quick" else 120)
     places = c16.choose_places(work, stats, graphs, rng)
     for gi, gr in enumerate(graphs):
         for pl in (None, places[gi]):
             dl, _ = K.render(gr, K.PLAIN, place=pl)
             ql, _ = K.query_lines(gr, K.PLAIN, place=pl)
             out.append(("classes-defs|uses", "\n".join(dl + ql) + "\n", None, [(len(dl) + 1,)]))
-    mps = rng.sample(MP.emit(work, stats, 2), 40 if tier == "quick" else 600)
+    mps = rng.sample(MP.emit(work, stats, 2), 40 if tier == "quick" else 120)
     for p in mps:
         lines, info = MP.render(p)
         first_use = min(r for r in info["site_row"].values())
@@ -116,7 +116,7 @@ def run(tier, work):
             continue
         lines = text.split("\n")
         splits = [list(f) for f in (forced or []) if all(r_ in rows for r_ in f)]
-        for _ in range(3 if tier == "quick" else 8):
+        for _ in range(3 if tier == "quick" else 4):      # measured: 16 black-box runs / s; 8 cuts x 600 library programs took 83 min
             k = rng.choice([1, 1, 2, 3])
             if len(rows) < k:
                 continue
